@@ -24,6 +24,9 @@ pub fn scalar_id(s: &Scalar) -> Value {
 pub fn point_id(p: &RistrettoPoint) -> Value {
     json!(p.id())
 }
+pub fn hex32(b: &[u8; 32]) -> String {
+    b.iter().map(|x| format!("{:02x}", x)).collect()
+}
 pub fn events_len() -> usize {
     with(|c| c.events.len())
 }
